@@ -124,10 +124,94 @@ def _sim():
   return _cases(stubs[0], stubs[1], syn)
 
 
+class _Holder(vs_grpc.VizierServiceServicer):
+  """'hold' keeps its handler busy until told to go on; anything else returns at once."""
+
+  def __init__(self, hold):
+    self._hold = hold
+    self.order = []
+
+  def CreateStudy(self, request, context):  # pylint: disable=invalid-name
+    self.order.append('enter:' + request.study.display_name)
+    if request.study.display_name == 'hold':
+      self._hold()
+    self.order.append('exit:' + request.study.display_name)
+    return study_pb2.Study(name=request.study.display_name)
+
+
+def _req(mode):
+  return vs.CreateStudyRequest(parent='owners/o', study=study_pb2.Study(display_name=mode))
+
+
+def _concurrency_real(limit):
+  """A second RPC arrives while the only worker thread is busy: refused (limit) or queued (no limit)."""
+  import threading  # pylint: disable=g-import-not-at-top
+  entered, go = threading.Event(), threading.Event()
+
+  def hold():
+    entered.set()
+    go.wait(10)
+
+  h = _Holder(hold)
+  port = portpicker.pick_unused_port()
+  kw = {} if limit is None else {'maximum_concurrent_rpcs': limit}
+  server = grpc.server(futures.ThreadPoolExecutor(max_workers=1), **kw)
+  vs_grpc.add_VizierServiceServicer_to_server(h, server)
+  server.add_insecure_port(f'localhost:{port}')
+  server.start()
+  channel = grpc.insecure_channel(f'localhost:{port}')
+  grpc.channel_ready_future(channel).result(timeout=20)
+  stub = vs_grpc.VizierServiceStub(channel)
+  out = {}
+  t1 = threading.Thread(target=lambda: out.__setitem__('first', _observe(stub.CreateStudy, _req('hold'))[:2]))
+  t1.start()
+  entered.wait(10)
+  t2 = threading.Thread(target=lambda: out.__setitem__('second', _observe(stub.CreateStudy, _req('quick'))[:2]))
+  t2.start()
+  t2.join(1.5)  # refused at once, or still waiting for the worker
+  second_waited = t2.is_alive()
+  go.set()
+  t1.join(10)
+  t2.join(10)
+  channel.close()
+  server.stop(0)
+  return (out.get('first'), out.get('second'), second_waited, tuple(h.order))
+
+
+def _concurrency_sim(limit):
+  from simkit import conc  # pylint: disable=g-import-not-at-top
+  net = simnet.Net()
+
+  def hold():
+    s = conc._ACTIVE[0]  # pylint: disable=protected-access
+    for _ in range(3):
+      s.yield_('held')
+
+  h = _Holder(hold)
+  import types as _t  # pylint: disable=g-import-not-at-top
+  server = simnet.SimServer(net, max_workers=1, maximum_concurrent_rpcs=limit)
+  vs_grpc.add_VizierServiceServicer_to_server(h, server)
+  server.add_insecure_port('sim:c')
+  server.start()
+  stub = vs_grpc.VizierServiceStub(simnet.SimChannel(net, 'sim:c'))
+  out = {}
+  # explicit schedule: first client until its handler holds, then the second client, then whoever can run
+  s = conc.Sched(explicit=['T0', 'T0', 'T1', 'T1', 'T1', 'T1'])
+  s.spawn('T0', lambda: out.__setitem__('first', _observe(stub.CreateStudy, _req('hold'))[:2]))
+  s.spawn('T1', lambda: out.__setitem__('second', _observe(stub.CreateStudy, _req('quick'))[:2]))
+  status = s.run()
+  second_waited = any(why.startswith('blocked:') for n, why in s.trace if n == 'T1')
+  del _t, status
+  return (out.get('first'), out.get('second'), second_waited, tuple(h.order))
+
+
 def run():
   """Returns a summary dict; raises SystemExit(2) on mismatch."""
   real = _real()
   sim = _sim()
+  for limit in (None, 1):
+    real.append(('concurrency-limit-%s' % limit, _concurrency_real(limit)))
+    sim.append(('concurrency-limit-%s' % limit, _concurrency_sim(limit)))
   mismatches = [(a, b) for a, b in zip(real, sim) if a != b]
   if mismatches or len(real) != len(sim):
     print('HARNESS-ERROR: simnet calibration mismatch against real loopback gRPC:')
